@@ -299,6 +299,12 @@ func segmentUserMatchesSession(s *Session, seg *segment) bool {
 	}
 	sessionBlock := s.block.Load()
 	if sessionBlock == nil {
+		// The session has not processed its first segment yet, so its cipher
+		// block is not set. A server session knows its owner from the policy
+		// stored when it was created.
+		if policy := s.userPolicy.Load(); policy != nil && policy.Name() != "" {
+			return policy.Name() == seg.block.BlockContext().UserName
+		}
 		return true
 	}
 	return (*sessionBlock).BlockContext().UserName == seg.block.BlockContext().UserName
